@@ -1252,11 +1252,22 @@ FULL STATEMENTS (not proved):
       parent of the addressed node keeps its type, finding C17-parent-retyped);
     commute_succeeds_around_removeMark, commute_succeeds_around_addMark_partial (under `ParentStable`): proved for
       ranges strictly outside `[from, to]` under `commuteGuard`, validity and `TextLoop`, next section.
-Proved: the node step strictly before `from` (its token may be an ancestor's open token) or strictly after `to`, under `commuteGuard`
-(not forced for attr steps: a guard-free proof needs "a replace does not read the markup of tokens outside its range
-except through `validContent` of rebuilt parents", which does not exist yet).  Missing for the rest:
-* inside the gap: as for `commute_succeeds_around_gap` below (the filled slice differs in one token's markup);
-* mark steps: next section (outside `[from, to]`); inside the gap open. -/
+Proved: the node step strictly before `from` (its token may be an ancestor's open token) or strictly after `to`, under
+`commuteGuard`; inside the gap under `gapGuard` (`commute_succeeds_around_nodeStep_gap_partial`, last section).
+The guard is not forced for attr / remove-node-mark steps.  Route to a guard-free proof (not done), with what exists
+now: the rebased node step applies to `da` by `attrStep_applies` / `removeNodeMark_applies` (valid `da`, the node is
+found again by `nodeAtKids_of_head`); for the replace-around step on `db` use the target-based criterion
+`replaceKids_merged` (as in `commute_succeeds_around_gap`) with target `dab = N'(da)`.  It needs
+`RightRel S db.kids t dab.kids (from + |filled slice|)`:
+* node before the range (or an ancestor of it): chain `db ~ d ~ da ~ dab`; the outer links are "a node's markup
+  exchanged at or left of the position" — missing: `rightRel_lift_lvl` (a `RightRel` inside a nested level lifts to the
+  whole list: the `deep` case of `rightRel_after_lvl`, Proofs/GapInner.lean) and the one-level statement
+  `RightRel S (P ++ n° :: R) q (P ++ n :: R) q` for `q` behind `n`'s open token, plus `db.kids = ctx (P ++ n° :: R)`
+  (from `remarkAt` or from tokens and normal form);
+* node after the range: `d` is no bridge (the remainders differ in the node); missing: `RightRel.remark` — a
+  `RightRel` is kept when the same node to the right of both positions gets the same markup on both sides
+  (`splitRight (remarkAt L p u) t` in terms of `splitRight L t`).
+Mark steps: next two sections (outside `[from, to]`; inside the gap). -/
 
 /-- **a node-mark / attr step on a token strictly before a replace-around step's range, one of the two inside a node
     the other one does not touch**: neither rebased step is dropped (both unchanged), both orders apply, and they
